@@ -129,6 +129,21 @@ fn convert(h: H) -> H {
     }
 }
 
+/// Every count accessor the handle kind offers (C04): the value must be a plausible number of
+/// owners, and reading it must not race with other threads' clones and drops.
+fn counts(h: &H) -> usize {
+    match h {
+        H::S(s) => Arc::strong_count(s).max(Arc::count(s)),
+        H::U2(u) => ArcUnion::strong_count(u),
+        H::A(a) => Arc::strong_count(a).max(Arc::count(a)).max(triomphe::ArcBorrow::strong_count(&a.borrow_arc())),
+        H::O(o) => OffsetArc::strong_count(o).max(o.with_arc(|a| Arc::count(a))),
+        H::T(t) => ThinArc::strong_count(t).max(t.with_arc(|a| Arc::strong_count(a))),
+        H::F(f) => Arc::strong_count(f),
+        H::U(u) => ArcUnion::strong_count(u).max(triomphe::ArcUnionBorrow::strong_count(&u.borrow())),
+        _ => 1,
+    }
+}
+
 /// One step of a thread's program on its own handle. `class` selects the op mix.
 fn step(h: H, class: u32, r: &mut Rng, acc: &mut u64) -> H {
     let k = r.below(10);
@@ -144,6 +159,15 @@ fn step(h: H, class: u32, r: &mut Rng, acc: &mut u64) -> H {
             h
         }
         (_, 5) => convert(h),
+        (4, _) => {
+            let c = counts(&h);
+            if c == 0 || c > 64 {
+                println!("VIOLATION-RECORD\tcount-mismatch\ta count accessor reported {} while at most a dozen handles exist", c);
+                std::process::exit(3);
+            }
+            *acc = acc.wrapping_add(c as u64);
+            h
+        }
         (3, _) => match h {
             // uniqueness-gated mutable access
             H::A(mut a) => {
